@@ -1,6 +1,7 @@
 from .common import COMMON_ASSUME
 
 CFG = {
+    "extra_props_modules": ["RpmVerif.Props.C02Bytes"],
     "props_module": "RpmVerif.Props.C02",
     "required_theorems": ["RpmVerif.C02.verify_ok_sound", "RpmVerif.C02.verify_log_faithful", "RpmVerif.C02.verify_data_right",
                           "RpmVerif.C02.verify_first_reject", "RpmVerif.C02.verify_total", "RpmVerif.C02.verify_no_sig_is_error",
@@ -15,7 +16,14 @@ CFG = {
                           "RpmVerif.C02.pgp_verifier_sound_parsed", "RpmVerif.C02.pgp_verifier_no_signature",
                           "RpmVerif.C02.pgp_verifier_ignores_trailing", "RpmVerif.C02.pgp_verifier_parsed_eq",
                           "RpmVerif.C02.issuerOk_of_single_packet", "RpmVerif.C02.builderTag_of_single_packet",
-                          "RpmVerif.C02.scheme_ignores_trailing"],
+                          "RpmVerif.C02.scheme_ignores_trailing",
+                          # echo_signature in place (AUDIT2 a10)
+                          "RpmVerif.C02.verify_echo_eq", "RpmVerif.C02.echo_total", "RpmVerif.C02.verify_total_echo",
+                          # bytes level, library-signed packages (Props/C02Bytes.lean; AUDIT2 c1, c2)
+                          "RpmVerif.C02.writeHeader_injective", "RpmVerif.C02.parse_of_prefix", "RpmVerif.C02.tamper_rejected_value",
+                          "RpmVerif.C02.tamper_rejected_bytes", "RpmVerif.C02.signOp_libSigned", "RpmVerif.C02.verify_of_signedSig",
+                          "RpmVerif.C02.binds_of_scheme", "RpmVerif.C02.tamper_rejected_build_sign",
+                          "RpmVerif.C02.verify_ok_digests_spec"],
     "trivial_branches": ["orig", "orig-parse-err"],
     "rule": "(a) recording implementation of the public Verifying trait (scripted accept/reject pattern: i-th consult accepted iff bit i; logs "
             "length+FNV of the data read to the end, length+FNV of the signature, verdict) on hand-encoded packages (pkggen: 3+ main-header "
@@ -45,7 +53,19 @@ CFG = {
             "single packet directly (signature? issuers, algorithm, which keys of the certificate accept it over the header) and the model must predict "
             "all three observations from its own framing + first-signature rule. Verdicts: vsig err = holds (the text restricts success only), vsig ok = judged by "
             "VerifySpec.successAllowed; flips/edits: parsed (header bytes, content) changed inside the header/payload regions => must not be ok; "
-            "dontcare = edited bytes do not parse, nothing parsed changed, or the edit lies outside the header/payload regions.",
+            "dontcare = edited bytes do not parse, nothing parsed changed, or the edit lies outside the header/payload regions. "
+            "(e) since AUDIT2: forge02 — right key, DIFFERENT data: the same five library-signed packages, edited (quick: every 7th bit of the WHOLE main header, "
+            "every 13th payload bit, 150 random multi-byte edits, structured index/store extensions, appended bytes per key; thorough: every bit, 3000 edits) and then "
+            "FORGED: PAYLOADDIGEST, SHA256, SHA1, MD5 recomputed over the edited package, signatures kept, so verify_digests passes and only the real pgp::Verifier "
+            "can refuse; harness and driver forge independently (compared through the FNV of the forged bytes); the model runs verifySignatureS with the verifier the "
+            "SigScheme hypotheses describe for the signer's key (the original's signatures, each for exactly the data it was made for); parsed (header bytes, content) "
+            "changed => must not be ok. sigpkts additionally: every composition as the binary under RPMSIGTAG_PGP over signatures made for header ++ payload (the real "
+            "verifier ACCEPTS there), three DIFFERENT blobs under RSA / DSA / PGP (and every subset that keeps PGP) — other key, empty message, no signature packet, "
+            "header-only signature under PGP, issuer listed twice — with signature_key_ids observed (last readable tag wins; error class and UnexpectedIssuerCount's "
+            "field printed), a signature whose issuer is listed twice under every legacy tag. vsig additionally observes signature_key_ids() on every shape (the "
+            "second, inline base64 decoder of package.rs meets every malformed text; one of the entry kinds is a real signature packet so that texts behind it are "
+            "reached) and what echo_signature hands to a Debug logger (scope, length, printed slice), both predicted by the model (Sign.keyIds with the same table; "
+            "verifySignatureSE).",
     "exhaustive": True,
     "shards": {"quick": 4, "thorough": 16},
     "shrink": False,
@@ -64,6 +84,10 @@ CFG = {
         "original's; edits that only touch the lead, reserved intro bytes, signature-header padding or the signature header are outside the clause",
         "the driver cannot run OpenPGP: for modified signed packages it predicts err by the digest route (own SHA-256/MD5/SHA-1) and makes no "
         "prediction where only the signature header changed",
+        "tamper_rejected_build_sign (bytes level): C06.Valid of the configuration, SigRecsOk, the scheme laws LegacyOk / Correct / Binds / B64, and NoCollision sha256 on "
+        "the two payloads (needed only when the header bytes are unchanged: the signature covers the header, the header records the payload digest); the edit may be "
+        "anything from the first byte of the main header on — lead and signature header are the signed file's",
+        "echo_signature is evaluated only under a Debug logger; the slice bound is scraped (tools/gen/echo_prefix.py); a bound of another shape degrades the table",
         "rpm-rs's own Verifier::verify (key selection) is modelled as it is after fix c25de51 (data buffered once, every attempt over the whole "
         "data); the code before that commit is kept as pgpVerifierVerifyOld for the two negative witnesses only"],
     "level_text": "Theorems for EVERY Package value (any signature header: any entries, types, counts, duplicates), ANY verifier (including stateful "
@@ -85,7 +109,16 @@ CFG = {
                   "builderTag_of_single_packet for SignatureHeaderBuilder::build); success of Verifier::verify => the FIRST parsable packet's signature "
                   "was accepted by a selected key over the full data (pgp_verifier_sound_parsed), same verdict for blobs that agree up to that packet "
                   "(pgp_verifier_ignores_trailing), and the packet-level model equals the blob-level one at issuers := parseSignature.map issuers "
-                  "(pgp_verifier_parsed_eq). Model tied to the code by the recording-verifier differential run (result class + full consult log "
+                  "(pgp_verifier_parsed_eq). With the echo_signature calls in place (verifySignatureSE: slice indexing explicit) result and log are the same and nothing panics; "
+                  "the logger is handed length and first N bytes per consult (verify_echo_eq, echo_total, verify_total_echo). Bytes level (Props/C02Bytes.lean): "
+                  "Header::write is injective on well-formed headers (writeHeader_injective); a file that agrees with a written package in front of the main header "
+                  "parses to the same lead and signature header (parse_of_prefix); tamper_rejected_value / tamper_rejected_bytes: 'changes what is parsed' literally "
+                  "(p' /= p), header route by Binds, payload route by the recorded payload digest; sign_with_timestamp installs the LibSigned shape (signOp_libSigned), "
+                  "verify_signature on ANY package carrying such a signature header makes exactly one consult (verify_of_signedSig), C10's scheme-level Binds gives the "
+                  "log-level Binds (binds_of_scheme); tamper_rejected_build_sign: for Pipeline.buildAndSign (any valid configuration, any scheme with C10's laws), any edit "
+                  "of the written file behind the signature header that still parses to something else verifies with NO key; verify_ok_digests_spec: success => every record "
+                  "of C03's DigestSpec.Recorded matches (verify_ok_sound composed with C03.digests_iff). "
+                  "Model tied to the code by the recording-verifier differential run (result class + full consult log "
                   "compared) and by the real verifier on bit flips / edits of library-signed packages.",
     "level_note": "Trusted: Lean kernel; fidelity of the hand model as exercised; pgp crate, base64 decoder and hash crates are parameters / exercised.",
 }
